@@ -941,10 +941,17 @@ def EDFA(input: optical_signal, G: float, NF: float, BW: float=None):
     if not isinstance(input, optical_signal):
         raise TypeError("`input` must be of type (optical_signal).")
 
-    output = optical_signal(signal=input.signal, noise=input.noise, n_pol=2) * np.sqrt( idb(G) )
-    
+    output = optical_signal(signal=input.signal, noise=input.noise, n_pol=2, dtype=complex)
+
+    # the gain acts on the whole input field, signal and incoming noise alike
+    output.signal = output.signal * np.sqrt( idb(G) )
+    if output.noise is not None:
+        output.noise = output.noise * np.sqrt( idb(G) )
+
     if input.n_pol == 1:
-        output.signal[1] = np.zeros_like(output.signal[0])  # y-polarization of signal is set to zeros.
+        output.signal[1] = 0  # y-polarization of signal is set to zeros.
+        if output.noise is not None:
+            output.noise[1] = 0  # and it carries no incoming noise either, only ASE
 
     # generate ASE noise (2-polarizations with real and imaginary parts)
     # gv.fs is taken as initial bandwidth of noise 
